@@ -1,9 +1,73 @@
-import Gzx.Util
+import Gzx.Driver.C01
 namespace Gzx.Driver.C15
-open Gzx
+open Gzx Gzx.QRDec Gzx.ECI
 
-/-- line-protocol handler of suite `c15` (arguments after the suite name) -/
+def reg : Registry := QRTables.registry
+
+def showEntry (e : Entry) : String :=
+  let v := match e.values with | v :: _ => toString v | [] => "none"
+  s!"{e.name}|{v}|{e.iana}"
+
+def showMode : EncMode → String
+  | .numeric => "NUMERIC" | .alphanumeric => "ALPHANUMERIC" | .byte => "BYTE" | .kanji => "KANJI"
+
+/-- `<text>` of an encoder hint is hex (it may contain spaces) -/
+def parseEncHint (s : String) : Option (Option EncHint) :=
+  if s == "-" then some none
+  else match s.splitOn ":" with
+    | [k, hex] =>
+      match parseHex? hex with
+      | some bs =>
+        let txt := String.ofList (bs.map Char.ofNat)
+        if k == "s" then some (some ⟨txt, true⟩) else if k == "v" then some (some ⟨txt, false⟩) else none
+      | none => none
+    | _ => none
+
 def handle : List String → String
+  | ["guess", hex, hint] =>
+    match parseHex? hex, C01.parseHint hint with
+    | some bs, some h =>
+      match guessCharset reg bs h with
+      | .ok cs => cs.show
+      | .error e => "ERR:" ++ e.tag
+    | _, _ => "bad-op"
+  | ["regv", v] =>
+    match parseInt? v with
+    | some v =>
+      match byValue reg v with
+      | .ok (some e) => showEntry e
+      | .ok none => "nil"
+      | .error e => "ERR:" ++ e.tag
+    | none => "bad-op"
+  | ["regn", hex] =>
+    match parseHex? hex with
+    | some bs =>
+      match byName reg (String.ofList (bs.map Char.ofNat)) with
+      | some e => showEntry e
+      | none => "nil"
+    | none => "bad-op"
+  | ["regsize"] => toString reg.length
+  | ["regdump"] =>
+    ";".intercalate (reg.map (fun e =>
+      s!"{e.name}|{",".intercalate (e.values.map toString)}|{",".intercalate e.others}|{e.iana}"))
+  | ["enc", hex, hint, sjis] =>
+    match parseHex? hex, parseEncHint hint with
+    | some content, some h =>
+      let sj : Option (List Nat) := if sjis == "x" then none else parseHex? sjis
+      match encCharset reg h with
+      | .error e => "ERR:" ++ e.tag
+      | .ok cs =>
+        let isSjis := match cs with
+          | some e => e.charset == "golang.org/x/text/encoding/japanese.ShiftJIS"
+          | none => false
+        let mode := chooseMode content isSjis sj
+        match encEciHeader reg h mode with
+        | .error e => "ERR:" ++ e.tag
+        | .ok hdr =>
+          let eci := if hdr.isEmpty then "-" else toString (natOfBits (hdr.drop 4))
+          s!"mode={showMode mode} eci={eci}"
+    | _, _ => "bad-op"
+  | "parse" :: rest => C01.handle ("parse" :: rest)
   | _ => "bad-op"
 
 end Gzx.Driver.C15
